@@ -220,13 +220,13 @@ class HProc(PartProcessor):
                          resources_for_processing=resources_for_processing)
 
     def get_work_order_duration(self, tag):
-        return self.h_wo.get(tag, [0, 0, 0])[0]
+        return self.h_wo[tag][0] if tag in self.h_wo else super().get_work_order_duration(tag)
 
     def get_work_order_capacity(self, tag):
-        return self.h_wo.get(tag, [0, 0, 0])[1]
+        return self.h_wo[tag][1] if tag in self.h_wo else super().get_work_order_capacity(tag)
 
     def get_work_order_cost(self, tag):
-        return self.h_wo.get(tag, [0, 0, 0])[2]
+        return self.h_wo[tag][2] if tag in self.h_wo else super().get_work_order_cost(tag)
 
     def start_work(self, tag):
         if not instrument.PROBING:
@@ -237,6 +237,20 @@ class HProc(PartProcessor):
         if not instrument.PROBING:
             self.h_log.hooks.append((self.h_log.now(), self.h_id, 'end', tag, self.h_log.serial()))
         super().end_work(tag)
+
+
+from simprocesd.model.factory_floor import DecisionGate as _DecisionGate  # noqa: E402
+
+
+class SubclassGate(_DecisionGate):
+    """A gate that decides by overriding part_pass_decider instead of passing decider_override."""
+
+    def __init__(self, name, upstream, pred):
+        self.h_pred = Pred(pred)
+        super().__init__(name=name, upstream=upstream)
+
+    def part_pass_decider(self, part):
+        return self.h_pred(self, part)
 
 
 class HGen(PartGenerator):
@@ -358,7 +372,10 @@ def build(spec, bus=None, script=True, system=None, known=None):
             d = Buffer(name=i, upstream=ups, minimum_delay=it.get('delay', 0), capacity=it.get('cap'),
                        value=it.get('value', 0))
         elif k == 'gate':
-            d = DecisionGate(name=i, upstream=ups, decider_override=Pred(it['pred']))
+            if it.get('subclass'):
+                d = SubclassGate(i, ups, it['pred'])
+            else:
+                d = DecisionGate(name=i, upstream=ups, decider_override=Pred(it['pred']))
         elif k == 'flow':
             d = PartFlowController(name=i, upstream=ups)
         elif k == 'batcher':
